@@ -93,7 +93,11 @@ def execute(module_name, sub, case):
   import importlib
   mod = importlib.import_module(module_name)
   fn = mod.SUBS[sub]
-  timeout_s = min(CASE_TIMEOUT_S, getattr(mod, 'TIMEOUTS', {}).get(sub, CASE_TIMEOUT_S))
+  # per-sub-space limit chosen by the check (macro cases that explore a whole graph need more than the default);
+  # VERIF_CASE_TIMEOUT, when set explicitly, is an upper bound for all of them
+  timeout_s = getattr(mod, 'TIMEOUTS', {}).get(sub, CASE_TIMEOUT_S)
+  if 'VERIF_CASE_TIMEOUT' in os.environ:
+    timeout_s = min(timeout_s, CASE_TIMEOUT_S)
   rec = {'sub': sub, 'case': case, 'status': 'ok', 'info': None}
   old = None
   use_alarm = hasattr(signal, 'SIGALRM') and _in_main_thread()
@@ -192,12 +196,14 @@ class Ctx:
     if sub not in self._determinism_done:
       self._determinism_done.add(sub)
       self._determinism(sub, cases[0])
+    import importlib
+    per_case = getattr(importlib.import_module(self.module_name), 'TIMEOUTS', {}).get(sub, CASE_TIMEOUT_S)
     pool = self._get_pool(workers)
     chunks = [cases[i:i + chunk] for i in range(0, len(cases), chunk)]
     futs = [pool.submit(_worker_chunk, self.module_name, sub, ch) for ch in chunks]
     for ch, f in zip(chunks, futs):
       try:
-        recs = f.result(timeout=CASE_TIMEOUT_S * len(ch) + 600)
+        recs = f.result(timeout=per_case * len(ch) + 600)
       except Exception as e:  # worker died / timeout  # pylint: disable=broad-except
         raise HarnessError('worker failure in %s: %r' % (sub, e))
       for r in recs:
